@@ -45,7 +45,10 @@ RULE = (
     "type, hostile field / type names, valid controls) through constructor, descriptor frame and JSON line in child "
     "interpreters started with -O, -OO, PYTHONOPTIMIZE=1/2, -I -B, -I -B -O, -X dev, other PYTHONHASHSEEDs: accepted => in "
     "the grammar, reported == delivered, no module named by a refused definition appears in sys.modules, no tripwire file; a "
-    "failing child is inconclusive.  Length boundaries: valid prefixes of 254/255/256/257/511/512/1023/1024/65535/65536 characters followed "
+    "failing child is inconclusive.  Names that are not text: nil, numbers, booleans, lists, maps, empty text / bin in every name-bearing "
+    "position (constructor, GroupedRecord, merge, DynamicDescriptor, descriptor frame, record / member identifier, grouped-frame group name, "
+    "JSON _data / _recorddescriptor, Avro doc / schema name): nothing carrying a name that is not grammar-valid text may be produced.  Repeated "
+    "field names (same / different types, 3x, reserved, keyword, hostile type first / last / middle, hostile name) on six paths.  Length boundaries: valid prefixes of 254/255/256/257/511/512/1023/1024/65535/65536 characters followed "
     "by each hostile suffix class (non-ASCII letter, separators, newline, quotes, NUL, code text aimed at the class statement / dict "
     "display) and fully valid names of those lengths, as type name (whole / per segment), field name and field type on every path.  Seeded part: random single-character mutations of valid "
     "identifiers at random positions of random definitions, and random grammar-valid definitions (vacuity control).  A case is "
@@ -57,7 +60,9 @@ RULE = (
     "module named by the definition outside flow.record.fieldtypes) and no tripwire file."
 )
 ASSUMPTIONS = [
-    "duplicate field names are not part of the name grammar and are not generated",
+    "repeated field names: a definition with any hostile component must be refused whatever repeats it; what the library does with repeats of valid "
+    "components only is observed, not demanded (accepted => slots are the distinct names + reserved, types whitelisted); the seeded generators "
+    "(mutations, random valid definitions) still produce distinct names",
     "child interpreters always run with bytecode writing disabled (PYTHONDONTWRITEBYTECODE / -B): nothing is written under the tree under test; -S "
     "(no site-packages: msgpack missing) is not a usable configuration",
     "the deprecated single-string definition form (parse_def) is not a delivery path",
@@ -66,7 +71,7 @@ ASSUMPTIONS = [
     "an exec'd source whose parse fails (SyntaxError/ValueError) counts as 'nothing ran'; a newline inside a name is not a structure change",
 ]
 SHARDS = {"quick": 8, "thorough": 16}
-BUDGET_S = {"quick": 150, "thorough": 900}
+BUDGET_S = {"quick": 150, "thorough": 3600}
 
 ANCHORS = [
     "flow.record.base:_generate_record_class",
@@ -308,17 +313,32 @@ def generate(ctx):
         if ctx.mine(idx):
             yield {"k": "env", "config": j, "via": "child"}
         idx += 1
+    for pos in BADNAME_POSITIONS:
+        for j in range(len(BADNAMES)):
+            if ctx.mine(idx):
+                yield {"k": "badname", "pos": pos, "i": j, "via": pos}
+            idx += 1
+    for j in range(len(COLLISION_BASES)):
+        for via in ("api", "stream", "json"):
+            if ctx.mine(idx):
+                yield {"k": "collision", "base": j, "via": via}
+            idx += 1
+    for rec in _dup_recipes():
+        for via in DUP_VIAS:
+            if ctx.mine(idx):
+                yield dict(rec, via=via)
+            idx += 1
     for j, (lname, lfields) in enumerate(COLLIDE_FIXED):
         for via in COLLIDE_VIAS:
             if ctx.mine(idx):
                 yield {"k": "collide", "fixed": j, "s": subseed("c06", "collide-fixed", j), "via": via}
             idx += 1
-    for i in range(ctx.scale(40, 1500)):
+    for i in range(ctx.scale(40, 6000)):
         yield {"k": "collide", "s": subseed("c06", ctx.seed, "collide", ctx.shard, i), "via": COLLIDE_VIAS[i % len(COLLIDE_VIAS)]}
-    nvalid = ctx.scale(250, 3000)
+    nvalid = ctx.scale(250, 12000)
     for i in range(nvalid):
         yield {"k": "valid", "s": subseed("c06", ctx.seed, "valid", ctx.shard, i), "via": VIAS[i % len(VIAS)]}
-    nrand = ctx.scale(1500, 25000)
+    nrand = ctx.scale(1500, 130000)
     for i in range(nrand):
         yield {"k": "rand", "s": subseed("c06", ctx.seed, "rand", ctx.shard, i), "via": VIAS[i % len(VIAS)]}
 
@@ -612,6 +632,360 @@ def execute_collide(ctx, case):
                               detail=dict(detail, source=src[:1200]))
         ctx.nontrivial("collide", via, fp64(legit, crafted))
         ctx.sample({"case": case, "legitimate": legit, "crafted": crafted, "outcome": detail["exception"]}, kind="collide:" + via)
+
+
+# ---- a NAME position that holds no text: nil / absent / wrong-typed ---------------------------------------------------------
+# (JSON-able spellings; "bin:" marks a msgpack bin / Python bytes value)
+BADNAMES = [None, 0, 5, -1, 1.5, True, False, [], ["a"], ["a", "b"], {}, {"a": 1}, "", "bin:", [None], [["a"]], 2**70]
+BADNAME_POSITIONS = ("api", "api-grouped", "api-merge", "api-dynamic", "stream-desc", "stream-ident", "grouped-name", "grouped-member",
+                     "json-desc", "json-ident", "avro-doc", "avro-name")
+
+
+def _bad_py(v):
+    return b"" if v == "bin:" else v
+
+
+def _bad_wire(v):
+    if v == "bin:":
+        return mp.Bin(b"")
+    if isinstance(v, str):
+        return mp.Str.of(v)
+    if isinstance(v, dict):
+        return mp.Map([(mp.Str.of(k), x) for k, x in v.items()])
+    if isinstance(v, list):
+        return [_bad_wire(x) for x in v]
+    return v
+
+
+def _name_is_text_in_grammar(n):
+    return isinstance(n, str) and H.valid_type_name(n)
+
+
+def execute_badname(ctx, case):
+    """Every name-bearing position given nil / a number / a list / a map / a boolean / empty text.  A name that is not
+    text cannot be in the grammar: nothing that carries such a name may be accepted (descriptor built, record or group
+    yielded with a definition whose name is not grammar-valid text)."""
+    import flow.record.base as base
+    from flow.record import GroupedRecord, RecordDescriptor, RecordReader, RecordStreamReader
+
+    st = ctx.state
+    pos = case["pos"]
+    val = BADNAMES[case["i"]]
+    st["uniq"] += 1
+    u = "u%dx%d" % (ctx.shard, st["uniq"])
+    fields = [("string", "x"), ("varint", u)]
+    S = mp.Str.of
+    hsh = refcodec.descriptor_hash("bn/valid", fields)
+    spy = st["spy"]
+    spy.drain()
+    marker = st["trip_marker"]
+    trips = []
+
+    def flt(event, args):
+        if event in ("os.system", "subprocess.Popen") or (event == "open" and args and marker in repr(args[0])):
+            trips.append((event, repr(args)[:200]))
+        return False
+
+    produced = []   # (what, definition name as reported)
+    exc = None
+
+    def stream(frames):
+        enc = refcodec.Encoder()
+        enc.header()
+        for sub, payload in frames:
+            enc._frame(enc.p.pack(enc._ext(sub, payload)))
+        for r in RecordStreamReader(io.BytesIO(enc.getvalue())):
+            produced.append(("record yielded", getattr(r, "name", None) if isinstance(r, base.GroupedRecord) else r._desc.name))
+
+    def jsonlines(lines):
+        path = os.path.join(st["tmp"], "files", "badname.json")
+        with open(path, "w") as f:
+            f.write("".join(json.dumps(x) + "\n" for x in lines))
+        rd = RecordReader(path)
+        try:
+            for r in rd:
+                produced.append(("record yielded", r._desc.name))
+        finally:
+            rd.close()
+
+    wf = [[S(t), S(n)] for t, n in fields]
+    values = [None] * len(fields) + [None, None, None, 1]
+    with probes.AuditLog(("os.system", "subprocess.Popen", "open"), filter=flt):
+        try:
+            if pos == "api":
+                produced.append(("descriptor built", RecordDescriptor(_bad_py(val), fields).name))
+            elif pos == "api-grouped":
+                g = GroupedRecord(_bad_py(val), [RecordDescriptor("bn/valid", fields)()])
+                produced.append(("group built", g.name))
+                produced.append(("flat descriptor", g._desc.name))
+            elif pos == "api-merge":
+                if val is None:
+                    raise NotApplicable("name=None is the documented default of merge_record_descriptors")
+                produced.append(("descriptor built", base.merge_record_descriptors((RecordDescriptor("bn/valid", fields),), name=_bad_py(val)).name))
+            elif pos == "api-dynamic":
+                produced.append(("descriptor built", base.DynamicDescriptor(_bad_py(val), ["x", u]).name))
+            elif pos == "stream-desc":
+                w = _bad_wire(val)
+                stream([(refcodec.T_DESC, [w, wf]), (refcodec.T_RECORD, [[w, 0], values])])
+            elif pos == "stream-ident":
+                w = _bad_wire(val)
+                stream([(refcodec.T_DESC, [S("bn/valid"), wf]), (refcodec.T_RECORD, [[w, hsh], values]), (refcodec.T_RECORD, [w, values])])
+            elif pos == "grouped-name":
+                stream([(refcodec.T_DESC, [S("bn/valid"), wf]), (refcodec.T_GROUPED, [_bad_wire(val), [[[S("bn/valid"), hsh], values]]])])
+            elif pos == "grouped-member":
+                w = _bad_wire(val)
+                stream([(refcodec.T_DESC, [S("bn/valid"), wf]), (refcodec.T_GROUPED, [S("bn/group"), [[[w, hsh], values]]])])
+            elif pos == "json-desc":
+                jv = None if val == "bin:" else val
+                jsonlines([{"_type": "recorddescriptor", "_data": [jv, [[t, n] for t, n in fields]]},
+                           {"_type": "record", "_recorddescriptor": [jv, hsh]}])
+            elif pos == "json-ident":
+                jv = None if val == "bin:" else val
+                jsonlines([{"_type": "recorddescriptor", "_data": ["bn/valid", [[t, n] for t, n in fields]]},
+                           {"_type": "record", "_recorddescriptor": [jv, hsh]}, {"_type": "record", "_recorddescriptor": jv}])
+            elif pos in ("avro-doc", "avro-name"):
+                import fastavro
+
+                jv = None if val == "bin:" else val
+                path = os.path.join(st["tmp"], "files", "badname.avro")
+                if pos == "avro-doc":
+                    schema = {"type": "record", "name": "frv", "doc": json.dumps([jv, [[t, n] for t, n in fields]]), "fields": []}
+                else:
+                    schema = {"type": "record", "name": jv, "fields": [{"name": "x", "type": ["string", "null"]}]}
+                try:
+                    with open(path, "wb") as f:
+                        fastavro.writer(f, fastavro.parse_schema(schema), [{}] if pos == "avro-doc" else [{"x": None}], codec="null")
+                except Exception:  # noqa: BLE001 - fastavro itself refuses to produce such a file
+                    raise NotApplicable("fastavro")
+                rd = RecordReader(path)
+                try:
+                    for r in rd:
+                        produced.append(("record yielded", r._desc.name))
+                finally:
+                    rd.close()
+        except NotApplicable:
+            ctx.event("not_applicable:badname-" + pos)
+            spy.drain()
+            return
+        except Exception as e:  # noqa: BLE001 - any exception class is a refusal
+            exc = e
+    sources = spy.drain()
+    ctx.ev()
+    ctx.event("delivered:badname-" + pos)
+    ctx.event("badname_cases")
+    detail = {"position": pos, "name_value": repr(val), "produced": [(w, repr(n)[:80]) for w, n in produced],
+              "exception": type(exc).__name__ if exc is not None else None}
+    ctx.cell("badname", pos, type(val).__name__, "refused" if exc is not None else "no-error", "produced=%d" % min(len(produced), 3))
+    if trips:
+        ctx.violation(None, "tripwire: %s fired while a definition was processed" % trips[0][0], detail=dict(detail, events=trips[:5]))
+    for what, n in produced:
+        if not _name_is_text_in_grammar(n):
+            ctx.violation(None, "a definition whose name is not grammar-valid text was accepted (%s, position %s)" % (what, pos), detail=detail)
+            break
+    else:
+        if produced:
+            ctx.event("badname_produced_with_valid_name")
+        else:
+            ctx.event("invalid_rejected")
+    for src in sources:
+        ctx.event("exec_sources")
+        status, shp = source_shape(src) if isinstance(src, str) else ("nonstr", None)
+        ctx.event("exec_source:" + status)
+        if status != "compiled":
+            continue
+        shapes = [twin_shape(st, f, st["whitelist"]) for f in (fields, [("dynamic", "x"), ("dynamic", u)], [("string", "x")], [])]
+        ctx.event("shape_compared")
+        if shp not in [x for x in shapes if x is not None]:
+            ctx.violation(None, "source handed to exec has a different parse-tree shape than its benign twin (injection)", detail=dict(detail, source=src[:1200]))
+    ctx.nontrivial("badname", pos, repr(val))
+    ctx.sample({"case": case, "name_value": repr(val), "outcome": detail["exception"], "produced": detail["produced"]}, kind="badname:" + pos)
+
+
+# ---- field names that collide with identifiers of the generated code -------------------------------------------------------
+COLLISION_BASES = [
+    [("string", "x"), ("string[]", "lst"), ("digest", "dg"), ("varint", "n")],
+    [("string", "x"), ("string[]", "lst"), ("string", "class")],
+    [("string", "value"), ("varint[]", "values"), ("path", "p"), ("net.ipaddress[]", "ips")],
+]
+COLLISION_STATIC = ["self", "cls", "args", "kwargs", "k", "v", "f", "values", "Record", "default", "field", "type", "default_x", "default_lst", "default_dg",
+                    "field_x", "unpack", "init", "slots", "desc", "utcnow", "zip_longest", "RECORD_VERSION", "setattr", "dict", "getattr", "object"]
+
+
+def execute_collision(ctx, case):
+    """Extra fields named like every identifier the generated source of the base definition uses (read from the captured
+    source) and like <prefix>_<field> for each base field: records built with values must hold exactly those values."""
+    from flow.record import RecordDescriptor
+
+    st = ctx.state
+    wl = st["whitelist"]
+    via = case["via"]
+    base_fields = COLLISION_BASES[case["base"]]
+    spy = st["spy"]
+    spy.drain()
+    st["uniq"] += 1
+    try:
+        RecordDescriptor("coll/base%dx%d" % (ctx.shard, st["uniq"]), base_fields)
+    except Exception as e:  # noqa: BLE001
+        ctx.violation(None, "a valid base definition was refused (%s)" % type(e).__name__, detail={"fields": base_fields})
+        return
+    idents = set(COLLISION_STATIC)
+    for src in spy.drain():
+        try:
+            tree = ast.parse(src)
+        except (SyntaxError, ValueError):
+            continue
+        for n in ast.walk(tree):
+            if isinstance(n, ast.Name):
+                idents.add(n.id)
+            elif isinstance(n, ast.arg):
+                idents.add(n.arg)
+            elif isinstance(n, ast.keyword) and n.arg:
+                idents.add(n.arg)
+            elif isinstance(n, ast.Attribute):
+                idents.add(n.attr)
+            elif isinstance(n, (ast.FunctionDef, ast.ClassDef)):
+                idents.add(n.name)
+    base_names = [n for _, n in base_fields]
+    for _, n in base_fields:
+        for pre in ("default", "field", "unpack", "type", "get", "set"):
+            idents.add("%s_%s" % (pre, n))
+    # identifiers of the generated code with their leading underscores removed are valid field names too
+    idents |= set(i.lstrip("_") for i in idents)
+    cands = sorted(i for i in idents if H.valid_field_name(i) and i not in base_names)
+    ctx.note("collision_identifiers_from_generated_source", len(cands))
+    for ident in cands:
+        st["uniq"] += 1
+        name = "coll/u%dx%d" % (ctx.shard, st["uniq"])
+        fields = list(base_fields) + [("string", ident)]
+        try:
+            acc = _deliver(st, via, name, fields)
+        except NotApplicable:
+            continue
+        except Exception as e:  # noqa: BLE001
+            ctx.event("collision_valid_refused:" + type(e).__name__)
+            continue
+        ctx.ev()
+        ctx.event("delivered:collision-" + via)
+        ctx.event("collision_cases")
+        for desc, rec in acc:
+            check_accepted(ctx, st, via, desc, rec, fields, "collision(%s) via %s" % (ident, via))
+        ctx.nontrivial("collision", case["base"], ident, via)
+    spy.drain()
+
+
+# ---- repeated field names ------------------------------------------------------------------------------------------------------
+DUP_VIAS = ("api", "api-gen", "stream", "json", "avro-doc", "api-text")
+
+
+def _dup_recipes():
+    out = []
+    for shape in ("same", "types", "triple", "reserved", "keyword"):
+        out.append({"k": "dup", "shape": shape, "i": 0})
+    for i in range(24):
+        for shape in ("hostile-type-first", "hostile-type-last", "hostile-type-middle3"):
+            out.append({"k": "dup", "shape": shape, "i": i})
+    for i in range(12):
+        for shape in ("hostile-name-twice", "hostile-name-and-valid"):
+            out.append({"k": "dup", "shape": shape, "i": i})
+    return out
+
+
+def build_dup(st, case):
+    P = st["pools"]
+    shape, i = case["shape"], case["i"]
+    ht = (P["ftype"] + P["stacked"])[i % (len(P["ftype"]) + len(P["stacked"]))]
+    hn = [x for x in P["near"] if x][i % (len(P["near"]) - 1)]
+    return {
+        "same": [("string", "a"), ("string", "a")],
+        "types": [("string", "a"), ("varint", "n"), ("varint", "a")],
+        "triple": [("string", "a"), ("varint", "a"), ("digest", "a"), ("string", "b")],
+        "reserved": [("string", "_source"), ("string", "a"), ("string", "_source")],
+        "keyword": [("string", "class"), ("varint", "class")],
+        "hostile-type-first": [(ht, "cmd"), ("varint", "n"), ("string", "cmd")],
+        "hostile-type-last": [("string", "cmd"), ("varint", "n"), (ht, "cmd")],
+        "hostile-type-middle3": [("string", "cmd"), (ht, "cmd"), ("string", "cmd"), ("varint", "n")],
+        "hostile-name-twice": [("string", hn), ("varint", "n"), ("string", hn)],
+        "hostile-name-and-valid": [("string", "a"), ("string", hn), ("varint", "a")],
+    }[shape]
+
+
+def execute_dup(ctx, case):
+    """Definitions that REPEAT a field name.  Whatever else repeats it, a definition with any hostile component (type or
+    name) must be refused.  Repeats of valid components only: what the library does is observed (accepted => the slots are
+    the distinct names in order of first appearance + reserved fields, every resolved type is a whitelisted class)."""
+    st = ctx.state
+    wl = st["whitelist"]
+    via = case["via"]
+    fields = build_dup(st, case)
+    st["uniq"] += 1
+    name = "dup/u%dx%d" % (ctx.shard, st["uniq"])
+    hostile = not all(H.valid_field_name(n) and H.valid_field_type(t, wl) for t, n in fields)
+    if via == "api-text" and (parse_text(definition_text(name, fields)) or (None, None))[1] != fields:
+        ctx.event("not_applicable:dup-api-text")
+        return
+    spy = st["spy"]
+    spy.drain()
+    marker = st["trip_marker"]
+    trips = []
+
+    def flt(event, args):
+        if event in ("os.system", "subprocess.Popen") or (event == "open" and args and marker in repr(args[0])):
+            trips.append((event, repr(args)[:200]))
+        return False
+
+    acc, exc = [], None
+    with probes.AuditLog(("os.system", "subprocess.Popen", "open"), filter=flt):
+        try:
+            acc = _deliver(st, via, name, fields)
+        except NotApplicable:
+            ctx.event("not_applicable:dup-" + via)
+            spy.drain()
+            return
+        except Exception as e:  # noqa: BLE001
+            exc = e
+    sources = spy.drain()
+    ctx.ev()
+    ctx.event("delivered:dup-" + via)
+    ctx.event("dup_cases")
+    detail = {"via": via, "name": name, "fields": fields, "exception": type(exc).__name__ if exc is not None else None}
+    ctx.cell("dup", case["shape"], via, "accepted" if acc else "refused")
+    if trips:
+        ctx.violation(None, "tripwire: %s fired while a definition was processed" % trips[0][0], detail=dict(detail, events=trips[:5]))
+    distinct = list(dict.fromkeys(n for _, n in fields))
+    for desc, rec in acc:
+        if hostile:
+            ctx.violation(None, "definition with a repeated field name and a hostile component accepted via %s" % via,
+                          detail=dict(detail, reported=[(t, n) for t, n in desc.get_field_tuples()]))
+            continue
+        ctx.event("dup_valid_accepted")
+        slots = tuple(getattr(desc.recordType, "__slots__", ()))
+        if slots != tuple(distinct) + H.RESERVED:
+            ctx.violation(None, "accepted definition with repeated field names: slots are not the distinct names + reserved fields",
+                          detail=dict(detail, slots=slots))
+        for n, fo in desc.get_all_fields().items():
+            cls = getattr(fo, "type", None)
+            base_cls = getattr(cls, "__type__", None) or cls
+            if n in distinct and base_cls not in st["resolved"].values():
+                ctx.violation(None, "accepted definition with repeated field names: a field type is not a whitelisted class", detail=dict(detail, field=n, cls=repr(cls)))
+    if not acc:
+        ctx.event("invalid_rejected" if hostile else "dup_valid_refused:" + (type(exc).__name__ if exc is not None else "nothing"))
+    for src in sources:
+        ctx.event("exec_sources")
+        status, shp = source_shape(src) if isinstance(src, str) else ("nonstr", None)
+        ctx.event("exec_source:" + status)
+        if status != "compiled" or hostile:
+            continue
+        first = {}
+        last = {}
+        for t, n in fields:
+            first.setdefault(n, t)
+            last[n] = t
+        shapes = [twin_shape(st, [(m[n], n) for n in distinct], wl) for m in (first, last)]
+        ctx.event("shape_compared")
+        if shp not in [x for x in shapes if x is not None]:
+            ctx.violation(None, "source handed to exec has a different parse-tree shape than its benign twin (injection)", detail=dict(detail, source=src[:1200]))
+    ctx.nontrivial("dup", case["shape"], case["i"], via)
+    ctx.sample({"case": case, "fields": fields, "outcome": "accepted" if acc else detail["exception"]}, kind="dup:%s:%s" % (case["shape"], "acc" if acc else "ref"))
 
 
 # ---- environment family: the same refusals in child interpreters started with other flags / settings --------------------
@@ -1192,6 +1566,26 @@ def check_accepted(ctx, st, via, desc, rec, declared_fields, what):
         _check_record(ctx, st, via, desc, r, declared_fields, kwargs if how != "defaults" else {}, what + " (%s)" % how)
     if rec is not None:
         _check_record(ctx, st, via, desc, rec, declared_fields, None, what + " (record read)")
+    # the reported definition must stay the delivered one after the public surfaces have been touched
+    try:
+        from flow.record import GroupedRecord
+
+        desc.get_all_fields()
+        desc.definition()
+        repr(desc)
+        try:
+            GroupedRecord("c06/regroup", [desc.recordType()])
+        except Exception:  # noqa: BLE001 - grouping is only there to touch the descriptor
+            pass
+        desc.get_all_fields()
+        again = [(t, n) for t, n in desc.get_field_tuples()]
+        names = [str(n) for n in desc.fields]
+        ctx.event("definition_reobserved")
+        if again != [(t, n) for t, n in declared_fields] or names != [n for _, n in declared_fields]:
+            ctx.violation(None, "%s: the reported definition changed after get_all_fields() / definition() / repr() / GroupedRecord()" % what,
+                          detail={"via": via, "declared": declared_fields, "field_tuples": again, "fields": names})
+    except Exception as e:  # noqa: BLE001
+        ctx.violation(None, "%s: re-observing an accepted definition raised %s" % (what, type(e).__name__), detail={"via": via, "exception": repr(e)[:300]})
 
 
 def _shadow_candidate(desc, declared_fields):
@@ -1254,6 +1648,12 @@ def execute(ctx, case):
         return execute_grouped(ctx, case)
     if case["k"] == "env":
         return execute_env(ctx, case)
+    if case["k"] == "badname":
+        return execute_badname(ctx, case)
+    if case["k"] == "dup":
+        return execute_dup(ctx, case)
+    if case["k"] == "collision":
+        return execute_collision(ctx, case)
     st = ctx.state
     wl = st["whitelist"]
     via = case["via"]
